@@ -28,6 +28,33 @@ KNOWN = os.path.join(ROOT, "known_findings.json")
 TLA_CP = "/opt/veriftools/tla/tla2tools.jar:/opt/veriftools/tla/CommunityModules-deps.jar"
 
 
+def harness_dir():
+    """The crate directory cargo is run in.  Normally /verif/harness (path
+    dependency on /repo).  Builders that try code changes in a private git
+    worktree set VERIF_REPO=<worktree>; then a shadow crate directory with
+    the same sources but the dependency path rewritten is used, so /repo
+    itself is never touched."""
+    repo = os.environ.get("VERIF_REPO")
+    if not repo:
+        return HARNESS
+    shadow = TARGET.rstrip("/") + "-crate"
+    os.makedirs(shadow, exist_ok=True)
+    for name in ("src", ".cargo"):
+        link = os.path.join(shadow, name)
+        if not os.path.islink(link):
+            os.symlink(os.path.join(HARNESS, name), link)
+    shutil.copyfile(os.path.join(HARNESS, "Cargo.lock"), os.path.join(shadow, "Cargo.lock"))
+    toml = open(os.path.join(HARNESS, "Cargo.toml")).read().replace(
+        'path = "/repo"', 'path = "%s"' % repo)
+    old = None
+    tp = os.path.join(shadow, "Cargo.toml")
+    if os.path.exists(tp):
+        old = open(tp).read()
+    if old != toml:
+        open(tp, "w").write(toml)
+    return shadow
+
+
 class ToolError(Exception):
     pass
 
@@ -127,7 +154,7 @@ class Ctx:
         env = dict(os.environ)
         env["CARGO_NET_OFFLINE"] = "true"
         env["CARGO_TARGET_DIR"] = TARGET
-        p = subprocess.run(cmd, cwd=HARNESS, env=env, stdout=subprocess.PIPE,
+        p = subprocess.run(cmd, cwd=harness_dir(), env=env, stdout=subprocess.PIPE,
                            stderr=subprocess.STDOUT, text=True)
         if p.returncode != 0:
             sys.stdout.write(p.stdout[-6000:])
